@@ -682,6 +682,10 @@ struct Value {
             return value_->operator<(val);
         }
 
+        if (val.Type() == ValueType::ValuePtr) {
+            return operator<(*(val.value_));
+        }
+
         return (type < val.Type());
     }
 
@@ -727,6 +731,10 @@ struct Value {
             }
         } else if (type == ValueType::ValuePtr) {
             return value_->operator>(val);
+        }
+
+        if (val.Type() == ValueType::ValuePtr) {
+            return operator>(*(val.value_));
         }
 
         return (type > val.Type());
@@ -776,6 +784,10 @@ struct Value {
             return value_->operator<=(val);
         }
 
+        if (val.Type() == ValueType::ValuePtr) {
+            return operator<=(*(val.value_));
+        }
+
         return (type < val.Type());
     }
 
@@ -821,6 +833,10 @@ struct Value {
             }
         } else if (type == ValueType::ValuePtr) {
             return value_->operator>=(val);
+        }
+
+        if (val.Type() == ValueType::ValuePtr) {
+            return operator>=(*(val.value_));
         }
 
         return (type > val.Type());
@@ -870,7 +886,11 @@ struct Value {
             return value_->operator==(val);
         }
 
-        return (type > val.Type());
+        if (val.Type() == ValueType::ValuePtr) {
+            return operator==(*(val.value_));
+        }
+
+        return false;
     }
 
     void Merge(Value &&val) {
